@@ -33,6 +33,9 @@ CHECKS = {
  "C05": ("model_checking", "bounded-exhaustive enumeration of values built through the real API (shape corpus, extended element alphabets, one-field-off-base values) x decode routes x followers; encode/decode/re-encode on the real codecs",
          "Every standalone action of the extended alphabet, every decodable match field (unmasked and masked), every instruction kind x residue actions, buckets, and every stats record / request body type is encoded and decoded through the category's dispatcher and directly into a receiver of the same type, alone and followed by {8 zero bytes, 8 0xff bytes, a copy of itself, one encoding per size residue}; every message of the controller- and switch-originated corpora (incl. all ordered action pairs, bundle nesting, values obtained from the parser for kinds without constructors) and every field of one base message per kind over its value alphabet goes through Parse (or the constructor-made receiver for packet-out, group-mod, port-mod). Oracle: decode succeeds, same dynamic type, equal exported field values, reported extent = bytes encoded, re-encoding reproduces the bytes.",
          "Observable values = exported fields without derived length fields and transaction ids; a match-field payload compares through its encoding (generic and typed payload representations are the same value); a note compares modulo the zero bytes the wire pads it with. Bundle-adds around kinds Parse does not decode, packet-in without payload and match fields without decoder are not two-way values (counted in the evidence).", "4/C05"),
+ "C07": ("fault_enumeration", "exhaustive enumeration of all inputs within a deviation bound of reference-encoded frames (plus all very short inputs and all type/length headers), each executed on the real Parse under a deterministic step budget and an allocation measurement",
+         "Seeds: reference encodings (engine/wire) of one message per distinct (kind, element-kind set) of the switch- and controller-originated corpora (about 2500 seeds quick). Bound 1, complete: every truncation (raw, and with the header length rewritten to the truncated size), every byte x all 256 values for seeds <= 256 bytes (boundary values above), every length/count/type/constant field of the reference field map x a boundary alphabet (0..10, powers of two, correct+-1/2/4/8, bytes-remaining+-1/2/4/8, 0x3fff, 0x4000, 0x7fff, 0x8000, max-7, max-1, max), trailing bytes; seed-independent: every input of length 0..2, all 256 type codes x 20 boundary lengths x 4 versions x 0..8 filler bytes, all types with 8..64-byte bodies. Thorough adds bound 2 (structural x structural, structural x truncation). About 5*10^7 executions quick on 16 worker processes. Outcome must be message-or-error; panic, (nil,nil), more than 64*len+4096 instrumented steps, more than 64*len+256 KiB allocated, or death of the worker process is a violation attributed to the exact input.",
+         "Instrumentation R1 (a tick at every function entry and loop body of the five packages) is regenerated from the working tree on every run; a budget overrun is raised again every 256 steps so that the library's own recover() cannot swallow it. Inputs more than two deviations away from every seed are not covered: the claim is 'no input in these sets'.", "4/C07"),
 }
 ORDER = ["C%02d" % i for i in range(1, 20)]
 NA = {}
